@@ -35,6 +35,8 @@ pub fn e2e_cases(args: &Args, ncases: u64, stream: u64) -> Acc {
     acc.count("e2e_history_items_received_by_transient_local_late_joiner", out.late_history_items);
     acc.count("e2e_earlier_items_withheld_from_volatile_readers", out.volatile_withheld);
     acc.count("e2e_datagrams_dropped_by_loss_policy", out.dropped);
+    acc.count("e2e_endpoints_created_after_a_deletion", out.newcomers);
+    acc.count("e2e_transient_matches_with_deleted_endpoints_taken_back_in_time", out.ghost_matches);
     acc.count("e2e_best_effort_reader_order_or_duplicate_anomalies_not_judged", out.best_effort_order_anomalies);
     acc.count("e2e_max_match_wait_ms", 0);
     let k = format!("e2e_max_match_wait_ms");
@@ -64,11 +66,11 @@ pub fn e2e_cases(args: &Args, ncases: u64, stream: u64) -> Acc {
 pub fn run_c07(args: &Args) -> i32 {
   let mut rep = Report::new(
     args,
-    "two or three real DomainParticipants in one process and domain (real loopback UDP, public API only): participants (started on helper threads), topics, publishers/subscribers, 2-6 readers/writers created in a random dependency-respecting order with random pauses, writers writing before anybody has matched; then every compatible pair must report the match on both sides within 40 s of unstalled time; then values (30 sizes, both sides of the 1024-byte fragment limit, every residue mod 4) and disposals are written under seeded datagram loss of 0-20 % on ALL traffic and every reliable reader must hold what a keep-all writer wrote after the match (keep-last: the last d) - identical bytes, writer order, no duplicates; then a late joiner (TransientLocal: must get the retained history; Volatile: must get nothing written before it existed), possibly on a brand-new participant; then a reader / writer / participant is deleted and every matched peer on another participant must report current_count_change -1; then traffic among the survivors; distinct = hash of scenario; non-trivial = >=2 values compared",
+    "two or three real DomainParticipants in one process and domain (real loopback UDP, public API only): participants (started on helper threads), topics, publishers/subscribers, 2-6 readers/writers created in a random dependency-respecting order with random pauses, writers writing before anybody has matched; then every compatible pair must report the match on both sides within 40 s of unstalled time; then values (30 sizes, both sides of the 1024-byte fragment limit, every residue mod 4) and disposals are written under seeded datagram loss of 0-20 % on ALL traffic and every reliable reader must hold what a keep-all writer wrote after the match (keep-last: the last d) - identical bytes, writer order, no duplicates; then a late joiner (TransientLocal: must get the retained history; Volatile: must get nothing written before it existed), possibly on a brand-new participant; then a reader / writer / participant is deleted and every matched peer on another participant must report current_count_change -1; then traffic among the survivors; then (3 scenarios in 4) a new endpoint of the kind that would match what was deleted is created on a surviving participant: it must match every living compatible endpoint, must not report a match with a deleted endpoint whose deletion an endpoint of the same participant has already reported (a match with a deleted endpoint nobody there could observe must be taken back within the unmatch bound), and traffic flows; distinct = hash of scenario; non-trivial = >=2 values compared",
   );
   rep.assume("bounds (40 s each for match, delivery, unmatch) are measured in time during which the harness thread itself was being scheduled (steps of at most 100 ms), so a stalled machine cannot produce a verdict; typical waits are printed as counters");
   rep.assume("a KeepAll writer retains at least the last 32 samples for TransientLocal late joiners (the implementation's resource limit); more than that is not demanded");
-  rep.assume("'later samples' for a Volatile reader: a sample counts as earlier only with evidence that it had left the writer before create_datareader was called: another reader had already taken it by then, or write() had returned more than 5 s before (write() only queues the sample for the participant's event loop); such a sample must not be delivered; anything else may or may not arrive");
+  rep.assume("'later samples' for a Volatile reader: a sample counts as earlier only with evidence: if the reader's participant hosts another reader of that writer (one shared TopicCache), that sibling had already taken the sample when create_datareader was called; otherwise some reader anywhere had taken it by then, or write() had returned more than 5 s before (write() only queues the sample for the participant's event loop); such a sample must not be delivered; anything else may or may not arrive");
   let ncases = args.scale(64, 3000);
   let acc = e2e_cases(args, ncases, 0x0707);
   rep.require("e2e_scenarios_completed", 20);
@@ -86,7 +88,7 @@ fn install_probe_logger() {
     fn log(&self, r: &log::Record) {
       let s = format!("{}", r.args());
       if self.enabled(r.metadata()) && std::env::var("VERIF_PROBE_GREP").map_or(false, |g| g.split('|').any(|x| s.contains(x) || r.target().contains(x))) {
-        eprintln!("[{:?}] {} {}: {}", std::thread::current().name(), r.level(), r.target(), s.chars().take(300).collect::<String>());
+        eprintln!("{:.4} [{:?}] {} {}: {}", std::time::SystemTime::now().duration_since(std::time::UNIX_EPOCH).map_or(0.0, |d| (d.as_secs() % 1000) as f64 + d.subsec_nanos() as f64 * 1e-9), std::thread::current().name(), r.level(), r.target(), s.chars().take(300).collect::<String>());
       }
     }
     fn flush(&self) {}
@@ -94,7 +96,7 @@ fn install_probe_logger() {
   static LOGGER: L = L;
   if std::env::var("VERIF_PROBE_GREP").is_ok() {
     let _ = log::set_logger(&LOGGER);
-    log::set_max_level(log::LevelFilter::Debug);
+    log::set_max_level(if std::env::var("VERIF_PROBE_LEVEL").map_or(false, |l| l == "trace") { log::LevelFilter::Trace } else { log::LevelFilter::Debug });
   }
 }
 
@@ -121,6 +123,8 @@ pub fn pinned_scenario(which: u64) -> stk2::Sc7 {
       post: vec![(0, Item::Val { key: 1, n: 1, len: 10 })],
       del: Del::Endpoint(1),
       after: vec![(0, Item::Val { key: 1, n: 2, len: 10 })],
+      newcomer: None,
+      newcomer_items: vec![],
     },
     4 => Sc7 {
       with_key: true,
@@ -146,6 +150,41 @@ pub fn pinned_scenario(which: u64) -> stk2::Sc7 {
       post: vec![(0, Item::Val { key: 1, n: 4, len: 10 })],
       del: Del::Endpoint(1),
       after: vec![(0, Item::Val { key: 1, n: 5, len: 10 })],
+      newcomer: None,
+      newcomer_items: vec![],
+    },
+    5 | 6 => Sc7 {
+      with_key: true,
+      nparts: 2,
+      eps: vec![w.clone(), EpSpec { part: 0, reliable: false, ..r.clone() }, EpSpec { part: 0, ..r.clone() }],
+      acts: vec![Act::Part(0), Act::Part(1), Act::Topic(0), Act::Topic(1), Act::PubSub(0), Act::PubSub(1), Act::Ep(0), Act::Ep(1)],
+      loss_disc_ppm: 0,
+      loss_ppm: 0,
+      main: vec![(0, Item::Val { key: 1, n: 0, len: 10 }), (0, Item::Val { key: 1, n: 1, len: if which == 5 { 5002 } else { 12 } })],
+      late: 2,
+      late_new_part: false,
+      post: vec![(0, Item::Val { key: 1, n: 2, len: 10 })],
+      del: Del::Endpoint(1),
+      after: vec![(0, Item::Val { key: 1, n: 3, len: 10 })],
+      newcomer: None,
+      newcomer_items: vec![],
+    },
+    7 => Sc7 {
+      // a writer is deleted, then a brand-new participant with a reader appears: it must not stay matched with the dead writer
+      with_key: true,
+      nparts: 2,
+      eps: vec![w.clone(), r.clone(), EpSpec { part: 1, ..r.clone() }, EpSpec { part: 2, ..r.clone() }],
+      acts: vec![Act::Part(0), Act::Part(1), Act::Topic(0), Act::Topic(1), Act::PubSub(0), Act::PubSub(1), Act::Ep(0), Act::Ep(1)],
+      loss_disc_ppm: 0,
+      loss_ppm: 0,
+      main: vec![(0, Item::Val { key: 1, n: 0, len: 10 })],
+      late: 2,
+      late_new_part: false,
+      post: vec![(0, Item::Val { key: 1, n: 1, len: 10 })],
+      del: Del::Endpoint(0),
+      after: vec![],
+      newcomer: Some(3),
+      newcomer_items: vec![],
     },
     3 => Sc7 {
       with_key: true,
@@ -160,6 +199,8 @@ pub fn pinned_scenario(which: u64) -> stk2::Sc7 {
       post: vec![(0, Item::Val { key: 1, n: 1, len: 10 })],
       del: Del::Endpoint(1),
       after: vec![(0, Item::Val { key: 1, n: 2, len: 10 })],
+      newcomer: None,
+      newcomer_items: vec![],
     },
     _ => Sc7 {
       with_key: true,
@@ -174,6 +215,8 @@ pub fn pinned_scenario(which: u64) -> stk2::Sc7 {
       post: vec![(0, Item::Val { key: 1, n: 1, len: 10 })],
       del: Del::Endpoint(1),
       after: vec![(0, Item::Val { key: 1, n: 2, len: 10 })],
+      newcomer: None,
+      newcomer_items: vec![],
     },
   }
 }
